@@ -15,8 +15,8 @@ bit length); `DbOK kf db` — the nodes of the old level left to right (`NodeOK`
 `1 ≤ prefix_compressed ≤ n`, compressed keys share the prefix, stored lengths as `BranchNodeBuilder::push` writes them;
 index separators ascend, keys of a node between its separator and the next one); `ChOK lo cs` — the ascending change list
 (keys in `[lo, 2^256)`, `Some(pn)` / `None`); `KFOK kf` — what the proofs ask of `prefix_len` / `separator_len`
-(`kfReal_ok`: the real ones satisfy it); `kf.canon` — `false`: the code as it is, `true`: with the repair of finding F20
-suggested in `notes/Q12_F20_suggested_fix.diff` (a first separator shorter than the base's prefix is never kept as part
+(`kfReal_ok`: the real ones satisfy it); `kf.canon` — `false`: the code as it is, `true`: with the repair of finding F22
+suggested in `notes/Q12_F22_suggested_fix.diff` (a first separator shorter than the base's prefix is never kept as part
 of a chunk; the mirror with the flag agrees with the code with the patch on 6·10⁵ differential lines); `runWorker` — `BranchUpdater::new`, `reset_base` to the node covering the next
 key, `ingest` while in scope, `digest` otherwise, `reset_base` to the next node on `NeedsMerge`, `digest` until
 `Finished`; `none` = a panic site was reached.
@@ -74,7 +74,7 @@ theorem T1_branch_update_is_kvApply (db : List DbNode) (cs : List (Nat × Option
 separator is its first key, `1 ≤ prefix_compressed ≤ n`, and the bytes its encoding occupies (`2n + ⌈(prefix_len + stored
 separator bits) / 8⌉ + 4n`) are at least `BRANCH_MERGE_THRESHOLD` unless it was handed the cutoff `None` (the rightmost
 node of the level); with `kf.canon` they are at most `BRANCH_NODE_BODY_SIZE` (separators and node pointers do not
-overlap in the page).  Without `kf.canon` — the code as it is — the upper bound is false: `T1_F20_overfull_counterexample`. -/
+overlap in the page).  Without `kf.canon` — the code as it is — the upper bound is false: `T1_F22_overfull_counterexample`. -/
 theorem T1_branch_sizes_bounded (kf : KF) (hkf : KFOK kf) (db : List DbNode) (cs : List (Nat × Option Nat)) (lo : Nat)
     (hdb : DbOK kf db) (hcs : ChOK lo cs) (hfirst : ∀ l, db.head? = some l → l.sep ≤ lo) :
     ∃ out rel, runWorker kf db cs = some (out, rel) ∧
@@ -127,13 +127,13 @@ theorem T1_const_branch_thresholds :
 
 /-! ## the theorems are sharp: three kernel-checked counterexamples -/
 
-/-- **F20, kernel-checked** — the code as it is (`kf.canon = false`): a well-formed level of one node (the all-zero key
+/-- **F22, kernel-checked** — the code as it is (`kf.canon = false`): a well-formed level of one node (the all-zero key
 in front of the small integers 1 … 120: prefix 249 bits, the first separator is stored with 0 bits), one inserted key
 that shares 33 bits with them.  The node is rebuilt from a kept chunk under the prefix of 33 bits; the gauge counted
 `1 - 33 = 0` bits for the first separator, `push_chunk` stores `0 + (249 - 33)` bits: the stage ends without a panic and
 hands `handle_new_branch` a node whose encoding needs 4094 > 4086 = `BRANCH_NODE_BODY_SIZE` bytes (in the real page the
 separators overwrite the first node pointers).  `T1_branch_sizes_bounded` needs `kf.canon`. -/
-theorem T1_F20_overfull_counterexample :
+theorem T1_F22_overfull_counterexample :
     DbOK kfReal (f20Db 120) ∧ ChOK 0 [(f20Outsider, some 5)] ∧ (∀ l, (f20Db 120).head? = some l → l.sep ≤ 0) ∧
       (runWorker kfReal (f20Db 120) [(f20Outsider, some 5)]).map
         (fun r => r.1.map fun o => match o with | .new p => (p.node.items.length, p.node.pl, p.node.body) | .old _ => (0, 0, 0)) =
